@@ -1473,7 +1473,8 @@ class ExprCompose(Expr):
         return hash(tuple(h_args))
 
     def _exprrepr(self):
-        return "%s%r" % (self.__class__.__name__, self._args)
+        return "%s(%s)" % (self.__class__.__name__,
+                           ', '.join(repr(arg) for arg in self._args))
 
     def copy(self):
         args = [arg.copy() for arg in self._args]
